@@ -28,9 +28,13 @@ package tests
 //
 // Output, one line per case:
 //   C <wid> <k1> <k2|-> | <phase-1 record> | <phase-2 record or -> | <probe>
-//   phase record: N=<ops in this phase up to its end> calls=<kind:arg:start:end:res;...> trace=<tok,tok,...>
-//       (trace = normalised mutating FS operations up to the crash point of that phase)
-//   probe: open=<ok|err|panic>:<index>:<msg> look=<k:v,...>
+//   phase record: N=<ops of the calls of this phase> crash=<ops that took effect before the crash, -1 none>
+//       calls=<kind:arg:start:end:res;...> trace=<tok,tok*n,...>   (tok*n: n consecutive operations tok)
+//       (trace = ALL normalised mutating FS operations of the phase, also those after the crash point: the
+//        interrupted call runs on with syncs ignored, so its whole operation sequence is visible; pebble's
+//        background jobs make the number and position of operations inside store directories vary a little
+//        from run to run, so every record is self-contained)
+//   probe: open=<ok|err|panic>:<index>:<msg> look=<k:v,...> ptrace=<normalised mutating FS operations of the probe's Open>
 
 import (
 	"bufio"
@@ -59,7 +63,8 @@ type vcFS struct {
 	n       int      // mutating operations seen so far
 	crashAt int      // -1: never
 	crashed bool     // syncs are being ignored
-	ops     []string // raw operations (un-normalised paths), only those before the crash
+	crashIx int      // number of operations that took effect before the crash (-1: no crash yet)
+	ops     []string // raw operations (un-normalised paths), all of them
 }
 
 func (c *vcFS) op(kind string, p string, p2 string) {
@@ -67,11 +72,10 @@ func (c *vcFS) op(kind string, p string, p2 string) {
 	defer c.mu.Unlock()
 	if !c.crashed && c.crashAt >= 0 && c.n >= c.crashAt {
 		c.crashed = true
+		c.crashIx = c.n
 		c.mem.SetIgnoreSyncs(true)
 	}
-	if !c.crashed {
-		c.ops = append(c.ops, kind+"\x00"+p+"\x00"+p2)
-	}
+	c.ops = append(c.ops, kind+"\x00"+p+"\x00"+p2)
 	c.n++
 }
 
@@ -241,7 +245,21 @@ func (z *vcNorm) trace(raw []string) string {
 		}
 		out = append(out, tok)
 	}
-	return strings.Join(out, ",")
+	// run-length encoding: tok*n
+	var rle []string
+	for i := 0; i < len(out); {
+		j := i
+		for j < len(out) && out[j] == out[i] {
+			j++
+		}
+		if j-i > 1 {
+			rle = append(rle, out[i]+"*"+strconv.Itoa(j-i))
+		} else {
+			rle = append(rle, out[i])
+		}
+		i = j
+	}
+	return strings.Join(rle, ",")
 }
 
 // ---------------------------------------------------------------- workload
@@ -396,8 +414,8 @@ func vcParsePhase(s string) []vcCall {
 
 // runs one phase on a fresh process; returns the calls, the number of operations of the phase and the
 // normalised trace up to the crash point (crashAt<0: no crash)
-func vcRunPhase(mem *vfs.MemFS, z *vcNorm, calls []vcCall, crashAt int, log []vcLogEnt, logKey string) ([]vcCall, int, string, bool) {
-	fs := &vcFS{FS: mem, mem: mem, crashAt: crashAt}
+func vcRunPhase(mem *vfs.MemFS, z *vcNorm, calls []vcCall, crashAt int, log []vcLogEnt, logKey string) ([]vcCall, int, string, int) {
+	fs := &vcFS{FS: mem, mem: mem, crashAt: crashAt, crashIx: -1}
 	d := NewDiskKVTest(vcCluster, vcNode).(*DiskKVTest)
 	d.disableSnapshotAbort = true
 	d.SetTestFS(fs)
@@ -426,9 +444,12 @@ func vcRunPhase(mem *vfs.MemFS, z *vcNorm, calls []vcCall, crashAt int, log []vc
 	fs.mu.Lock()
 	if crashAt >= 0 && !fs.crashed {
 		fs.crashed = true
+		fs.crashIx = fs.n
 		mem.SetIgnoreSyncs(true)
 	}
 	crashed := fs.crashed
+	crashIx := fs.crashIx
+	nops := len(fs.ops)
 	fs.mu.Unlock()
 	func() { // release pebble's handles; nothing done here is durable after a crash
 		defer func() { _ = recover() }()
@@ -436,24 +457,26 @@ func vcRunPhase(mem *vfs.MemFS, z *vcNorm, calls []vcCall, crashAt int, log []vc
 			p.d.Close()
 		}
 	}()
-	tr := z.trace(fs.ops)
+	fs.mu.Lock()
+	tr := z.trace(fs.ops[:nops])
+	fs.mu.Unlock()
 	if crashed {
 		mem.ResetToSyncedState()
 		mem.SetIgnoreSyncs(false)
 	}
-	return res, n, tr, dead
+	return res, n, tr, crashIx
 }
 
-func vcRecord(calls []vcCall, n int, tr string) string {
+func vcRecord(calls []vcCall, n int, tr string, crashIx int) string {
 	var cs []string
 	for _, c := range calls {
 		cs = append(cs, fmt.Sprintf("%s:%d:%d:%d:%s", c.kind, c.arg, c.start, c.end, c.res))
 	}
-	return fmt.Sprintf("N=%d calls=%s trace=%s", n, strings.Join(cs, ";"), tr)
+	return fmt.Sprintf("N=%d crash=%d calls=%s trace=%s", n, crashIx, strings.Join(cs, ";"), tr)
 }
 
-func vcProbe(mem *vfs.MemFS, keys []string) string {
-	fs := &vcFS{FS: mem, mem: mem, crashAt: -1}
+func vcProbe(mem *vfs.MemFS, z *vcNorm, keys []string) string {
+	fs := &vcFS{FS: mem, mem: mem, crashAt: -1, crashIx: -1}
 	d := NewDiskKVTest(vcCluster, vcNode).(*DiskKVTest)
 	d.disableSnapshotAbort = true
 	d.SetTestFS(fs)
@@ -471,6 +494,9 @@ func vcProbe(mem *vfs.MemFS, keys []string) string {
 		}
 		idx = i
 	}()
+	fs.mu.Lock()
+	openOps := append([]string{}, fs.ops...)
+	fs.mu.Unlock()
 	var look []string
 	if status == "ok" {
 		func() {
@@ -500,7 +526,7 @@ func vcProbe(mem *vfs.MemFS, keys []string) string {
 			d.Close()
 		}()
 	}
-	return fmt.Sprintf("open=%s:%d:%s look=%s", status, idx, msg, strings.Join(look, ","))
+	return fmt.Sprintf("open=%s:%d:%s look=%s ptrace=%s", status, idx, msg, strings.Join(look, ","), z.trace(openOps))
 }
 
 func vcKeys(log []vcLogEnt) []string {
@@ -519,16 +545,16 @@ func vcKeys(log []vcLogEnt) []string {
 func vcCase(w io.Writer, wid string, log []vcLogEnt, logKey string, ph1, ph2 []vcCall, k1, k2 int, double bool) (int, int) {
 	mem := vfs.NewStrictMem()
 	z := &vcNorm{node: getNodeDBDirName(vcCluster, vcNode, mem), dbs: map[string]int{}}
-	c1, n1, t1, _ := vcRunPhase(mem, z, ph1, k1, log, logKey)
+	c1, n1, t1, x1 := vcRunPhase(mem, z, ph1, k1, log, logKey)
 	rec2, n2 := "-", 0
 	if double {
-		c2, n, t2, _ := vcRunPhase(mem, z, ph2, k2, log, logKey)
-		rec2, n2 = vcRecord(c2, n, t2), n
+		c2, n, t2, x2 := vcRunPhase(mem, z, ph2, k2, log, logKey)
+		rec2, n2 = vcRecord(c2, n, t2, x2), n
 	}
 	if k1 < 0 { // no crash at all: the phase was closed normally by vcRunPhase
 		mem.SetIgnoreSyncs(false)
 	}
-	probe := vcProbe(mem, vcKeys(log))
+	probe := vcProbe(mem, z, vcKeys(log))
 	k2s := "-"
 	if double {
 		if k2 > n2 {
@@ -539,7 +565,7 @@ func vcCase(w io.Writer, wid string, log []vcLogEnt, logKey string, ph1, ph2 []v
 	if k1 > n1 {
 		k1 = n1
 	}
-	fmt.Fprintf(w, "C %s %d %s | %s | %s | %s\n", wid, k1, k2s, vcRecord(c1, n1, t1), rec2, probe)
+	fmt.Fprintf(w, "C %s %d %s | %s | %s | %s\n", wid, k1, k2s, vcRecord(c1, n1, t1, x1), rec2, probe)
 	return n1, n2
 }
 
